@@ -56,6 +56,7 @@ Definition zoo_ty (id : Z) : option pty :=
   | 18 => Some (TSeq [r TBits])
   | 19 => Some (TSeq [r (TSeqOf (TSeqOf (TInt KU8))); r (TInt KU8)])
   | 20 => Some (TChoice [TSeqOf (TInt KU8); TInt KU8])
+  | 21 => Some (TSeq [r (TSeqOf TNull); r (TInt KU8)])
   | _ => None
   end.
 
